@@ -64,6 +64,16 @@ CHECKS["C18"] = (
     "DESIGN.md section 3, C18",
 )
 
+CHECKS["C11"] = (
+    "bounded-exhaustive enumeration of inputs and repeated-application histories under a deterministic step budget (sys.settrace fuel)",
+    "All docstrings of <= 3 (thorough 4) tokens over a 28-token alphabet through the parser and the splitter, all (header, description) "
+    "pairs of a whitespace alphabet x styles x indents through the emitter, and generated modules through doctrans applied 1..3 times; "
+    "every call runs under a step budget C0 + C1*len(input) counted in line events of the cdd package, so non-termination is a decided, "
+    "replayable outcome rather than a wall-clock guess.",
+    "steps are counted in Python line events of cdd (loops inside C helpers are not seen); linearity is judged against a fixed envelope",
+    "DESIGN.md section 3, C11",
+)
+
 PENDING_REASON = "check not built yet in this revision (planned, see DESIGN.md section 3); no claim is made"
 
 
